@@ -100,7 +100,18 @@ pub fn run(p: &Program, record: bool) -> RunResult {
                 do_dispatch(&sim, &mut lp, *t);
             }
             Op::DropLoop => {
-                do_drop_loop(&sim, &mut lp);
+                // (an adapter is a strong handle on the loop: with one alive the loop would not
+                // really go away, which the model does not follow in mid-history)
+                let blocked = {
+                    let st = sim.st.borrow();
+                    st.adapters.values().any(|a| crate::adapter::alive(a.state)) || !st.tasks.is_empty()
+                };
+                if !blocked {
+                    do_drop_loop(&sim, &mut lp);
+                }
+            }
+            Op::NewLoop => {
+                do_new_loop(&sim, &mut lp);
             }
             Op::Run { timeout, iters } => {
                 stats.dispatches += *iters as u64;
@@ -188,6 +199,53 @@ pub fn timeout_of(t: Timeout) -> Option<Duration> {
         Timeout::Some(ns) => Some(Duration::from_nanos(ns)),
         Timeout::None => None,
     }
+}
+
+/// A second loop, after the first one has been dropped. Only for histories without adapters and
+/// executor tasks (both can hold the old loop alive, which the model does not follow).
+fn do_new_loop(sim: &Rc<Sim>, lp: &mut Option<EventLoop<'static, Tag>>) {
+    if lp.is_some() || sim.st.borrow().loop_alive {
+        return;
+    }
+    {
+        let st = sim.st.borrow();
+        if !st.adapters.is_empty() || !st.tasks.is_empty() || st.srcs.values().any(|s| matches!(s.k, K::Exec(_) | K::Stream(_) | K::Sig(_) | K::Comp(_) | K::Trans(_)) || s.indeterminate) {
+            return;
+        }
+    }
+    let created = catch_unwind(AssertUnwindSafe(|| EventLoop::<Tag>::try_new()));
+    let Ok(Ok(l)) = created else {
+        sim.violate("op.panic", vec!["try_new".into()], "EventLoop::try_new failed".into());
+        return;
+    };
+    let epfd = std::os::fd::AsRawFd::as_raw_fd(&l);
+    {
+        let mut hk = sim.hk.borrow_mut();
+        hk.epfd = epfd;
+        hk.notifier_fd = os::find_notifier(epfd).unwrap_or(-1);
+    }
+    let mut st = sim.st.borrow_mut();
+    st.handle = Some(l.handle());
+    st.signal = Some(l.get_signal());
+    st.loop_alive = true;
+    // tokens of the first loop mean nothing to this one; idles of the first loop are gone
+    for s in st.srcs.values_mut() {
+        s.old_loop = true;
+        s.reg_key = None;
+    }
+    for i in st.idles.values_mut() {
+        if i.state == IdleState::Pending {
+            i.state = IdleState::Cancelled;
+        }
+        i.handle = None;
+    }
+    st.idle_queue.clear();
+    st.extra_table.clear();
+    st.leaked_keys.clear();
+    st.kept_rejected.clear();
+    drop(st);
+    *lp = Some(l);
+    sim.probe("second_loop");
 }
 
 fn do_drop_loop(sim: &Rc<Sim>, lp: &mut Option<EventLoop<'static, Tag>>) {
@@ -658,6 +716,14 @@ pub fn wait_hook(
     events: &mut polling::Events,
     timeout: Option<Duration>,
 ) -> io::Result<usize> {
+    // one dispatch waits once (a few times with interrupted waits); a dispatch that keeps
+    // going back to the poller without ever returning is a livelock of the code under test
+    if sim.is_dead() || sim.hk.borrow().waits.len() > 300 {
+        if !sim.is_dead() {
+            sim.violate("wait.livelock", vec![], "one dispatch went back to the poller more than 300 times without returning (woken up, nothing to deliver, waits again: it would never return)".into());
+        }
+        return Err(io::Error::new(io::ErrorKind::Other, "simulation ended"));
+    }
     let t_enter = sim.now_ns();
     let req = timeout.map(|d| d.as_nanos().min(u64::MAX as u128) as u64);
     let mut rec = WaitRec { requested: Some(req), t_enter, ..Default::default() };
